@@ -43,10 +43,34 @@ def infra(msg):
 
 
 # ---------------------------------------------------------------------------------- lean
+_LOCK_DEPTH = [0, None]
+
+
+class _Lock:
+    def __init__(self, real):
+        self.real = real
+
+    def close(self):
+        pass
+
+
 def lake_lock():
-    fh = open(os.path.join(LEAN, ".lake.lock"), "w")
-    fcntl.flock(fh, fcntl.LOCK_EX)
-    return fh
+    """exclusive lock on the Lean build directory AND on Generated/Data.lean (extraction + build must be
+    atomic with respect to other checks); re-entrant within one process"""
+    if _LOCK_DEPTH[0] == 0:
+        fh = open(os.path.join(LEAN, ".lake.lock"), "w")
+        fcntl.flock(fh, fcntl.LOCK_EX)
+        _LOCK_DEPTH[1] = fh
+    _LOCK_DEPTH[0] += 1
+    return _Lock(_LOCK_DEPTH[1])
+
+
+def lake_unlock():
+    _LOCK_DEPTH[0] -= 1
+    if _LOCK_DEPTH[0] == 0:
+        fcntl.flock(_LOCK_DEPTH[1], fcntl.LOCK_UN)
+        _LOCK_DEPTH[1].close()
+        _LOCK_DEPTH[1] = None
 
 
 def theorems_in(path):
@@ -163,8 +187,7 @@ def lean_obligations(prop):
             status["broken"] += ["forbidden construct: " + x for x in status["forbidden"]]
         status["discharged"] = status["obligations"] - len(failed_thms)
     finally:
-        fcntl.flock(lock, fcntl.LOCK_UN)
-        lock.close()
+        lake_unlock()
     status["build_s"] = round(time.time() - t0, 2)
     return status
 
@@ -176,8 +199,7 @@ def ensure_driver():
         if r.returncode != 0:
             infra("driver does not build:\n" + r.stdout[-3000:])
     finally:
-        fcntl.flock(lock, fcntl.LOCK_UN)
-        lock.close()
+        lake_unlock()
 
 
 # ---------------------------------------------------------------------------------- scripts
@@ -279,12 +301,21 @@ def main():
     build = build_repo.build()
     log("build of /repo working tree: " + build)
     env = dict(os.environ, BEZIER_PKG=os.path.join(build, "pkg_pure"))
-    r = subprocess.run([PY, os.path.join(HERE, "extract.py")], env=env, stdout=subprocess.PIPE, stderr=subprocess.STDOUT, text=True)
-    if r.returncode != 0:
-        infra("extractor crashed:\n" + r.stdout[-3000:])
-    extract_problems = [l for l in r.stdout.split("\n") if l.startswith("EXTRACT-PROBLEM")]
-    ensure_driver()
-    lean = lean_obligations(prop)
+    lake_lock()
+    try:
+        r = subprocess.run([PY, os.path.join(HERE, "extract.py")], env=env, stdout=subprocess.PIPE, stderr=subprocess.STDOUT, text=True)
+        if r.returncode != 0:
+            infra("extractor crashed:\n" + r.stdout[-3000:])
+        extract_problems = [l for l in r.stdout.split("\n") if l.startswith("EXTRACT-PROBLEM")]
+        for extra in spec.get("extractors", []):
+            r2 = subprocess.run([PY, os.path.join(HERE, extra)], env=env, stdout=subprocess.PIPE, stderr=subprocess.STDOUT, text=True)
+            if r2.returncode != 0:
+                infra("extractor %s crashed:\n%s" % (extra, r2.stdout[-3000:]))
+            extract_problems += [l for l in r2.stdout.split("\n") if l.startswith("EXTRACT-PROBLEM")]
+        ensure_driver()
+        lean = lean_obligations(prop)
+    finally:
+        lake_unlock()
     log("lean: %d/%d obligations discharged in %.1fs%s" % (lean["discharged"], lean["obligations"], lean["build_s"],
                                                             "" if not lean["broken"] else "; BROKEN: " + "; ".join(lean["broken"][:6])))
     results = run_scripts(prop, tier, seed, build)
